@@ -1310,9 +1310,12 @@ def normalise(trees, known=None, sources=None):
     scoped_names = {k.split('.', 1)[1] for k in callees if '.' in k}
     # which modules mention a callee at all
     changed = {}
+    defining = {c.rel for c in callees.values()}
     for rel, t in trees.items():
-        hit = False
+        hit = rel in defining         # (so that a definition whose calls, all in other modules, were inlined can be dropped)
         for n in ast.walk(t):
+            if hit:
+                break
             if isinstance(n, ast.Call):
                 f = n.func
                 nm = f.id if isinstance(f, ast.Name) else f.attr if isinstance(f, ast.Attribute) else None
@@ -1367,8 +1370,7 @@ def normalise(trees, known=None, sources=None):
                     refs[n.id] += 1
                 elif isinstance(n, ast.Attribute) and n.attr in refs:
                     refs[n.attr] += 1
-                elif isinstance(n, ast.alias) and n.name in refs:
-                    refs[n.name] += 1       # imported somewhere: keep
+                # (an import of the name alone is not a use: the importing module's calls were inlined like all others)
                 elif isinstance(n, ast.Constant) and isinstance(n.value, str) and n.value in refs:
                     refs[n.value] += 1      # getattr(obj, 'name')
         progress = False
